@@ -77,7 +77,7 @@ def closure_upvar_sides(parent, psides, clos_path):
     """sides of the captured values of closure `clos_path`, from the aggregate that builds it in the parent"""
     out = {}
     for s in parent.stmts():
-        if s.kind == "assign" and s.rv == "agg" and isinstance(s.agg, dict) and s.agg.get("closure", "").split("::")[-1] == clos_path.split("::")[-1]:
+        if s.kind == "assign" and s.rv == "agg" and isinstance(s.agg, dict) and s.agg.get("closure", "") == clos_path:
             for i, o in enumerate(s.ops):
                 out[i] = psides.of_place_op(o)
     return out
@@ -294,14 +294,59 @@ def r5(cx):
         return bool(body.calls("=downcast_ref")) and any(s.kind == "assign" and s.rv == "agg" and isinstance(s.agg, dict) and s.agg.get("variant") == "BrokenPipe" for s in body.stmts()) or \
                bool(body.calls("=downcast_ref")) and any(o.is_const and "BrokenPipe" in str((o.const or {}).get("dbg", "")) for s in body.stmts() if s.kind == "assign" for o in s.ops)
     idx = {b.path: b for b in cx.mir.bodies(PKG) if b.promoted is None}
+    def is_broken_pipe(body, sl, op):
+        from vlib.facts import promoted_body
+        def bp(stmts): return any(s.kind == "assign" and s.rv == "agg" and isinstance(s.agg, dict) and s.agg.get("variant") == "BrokenPipe" for s in stmts)
+        for k, o in sl.origins(op, follow_agg=False):
+            if k == "agg" and bp([o]): return True
+            if k == "const":
+                c = o.const or {}
+                if "BrokenPipe" in str(c.get("val", "")): return True
+                dbg = str(c.get("dbg", "") or "")
+                if "promoted[" in dbg:
+                    pb = promoted_body(body, dbg)
+                    if pb is not None and (bp(pb.stmts()) or any(o2.is_const and "BrokenPipe" in str((o2.const or {}).get("val", "")) for s2 in pb.stmts() if s2.kind == "assign" for o2 in s2.ops)): return True
+                elif "BrokenPipe" in dbg: return True
+        return False
+    def filter_decides(body, start, env0):
+        """with the bridged result assumed Err: Ok is returned exactly on the paths that found `kind() == BrokenPipe`"""
+        from vlib.cfg import enumerate_paths
+        from vlib.pathcond import literals
+        from vlib import absval
+        cfg = Cfg(body); bdu = DefUse(body); sl = Slice(body, bdu)
+        hit = [False]
+        paths = enumerate_paths(cfg, start, lambda blk: blk.term.kind == "return", du=bdu, env0=env0, on_limit=lambda: hit.__setitem__(0, True))
+        if hit[0]: return None
+        n = 0; wrong = 0
+        for pth in paths:
+            if pth[-1] < 0 or body.blocks[pth[-1]].term.kind != "return": continue
+            n += 1
+            found = False
+            for lit in literals(body, pth):
+                if lit.kind != "call" or lit.obj.callee.name not in ("eq", "ne") or len(lit.obj.args) != 2: continue
+                a, b = lit.obj.args
+                for x, y in ((a, b), (b, a)):
+                    if any(k == "call" and o.callee.name == "kind" for k, o in sl.origins(x)) and is_broken_pipe(body, sl, y):
+                        if lit.truth == (lit.obj.callee.name == "eq"): found = True
+            # value of the return place at the end of the path
+            st = None
+            for kind, b, obj, store in absval.walk(body, bdu, cfg, pth, env0=env0): st = store
+            v = st.get(0) if st is not None else None
+            is_ok = v is not None and v[0] == "var" and v[1] == 0
+            is_err = v is not None and v[0] == "var" and v[1] == 1
+            if found != is_ok or (not found and not is_err): wrong += 1
+        return n > 0 and wrong == 0
     for i, t in enumerate(calls):
         T = forward_taint(vb, du, {t.dest.l})
         good = False
-        if vb.calls("=downcast_ref") and any(a.place is not None and a.place.l in T for x in vb.calls("=downcast_ref") for a in x.args): good = True
+        if vb.calls("=downcast_ref") and any(a.place is not None and a.place.l in T for x in vb.calls("=downcast_ref") for a in x.args):
+            good = bool(filter_decides(vb, t.target, {t.dest.l: ("var", 1, None)}))
         for x in vb.calls():
             if x.callee.indirect: continue
             cb = idx.get(x.callee.resolved) or idx.get(x.callee.path)
-            if cb is not None and cb.calls("=downcast_ref") and any(a.place is not None and a.place.l in T for a in x.args): good = True
+            if cb is not None and cb.calls("=downcast_ref"):
+                for ai, a in enumerate(x.args):
+                    if a.place is not None and a.place.l in T and filter_decides(cb, 0, {ai + 1: ("var", 1, None)}): good = True
         cx.check(good, "C18.R5", "%s:varlink_bridge:%s#%d:broken-pipe-is-normal-end" % (PKG, t.callee.name, i), "%s varlink_bridge" % t.sp,
                  "the result of proxy::%s does not pass through the BrokenPipe filter its sibling uses: a peer that simply closes makes this bridge mode exit with an error" % t.callee.name,
                  note_ok="result goes through the shared BrokenPipe handling")
@@ -345,6 +390,23 @@ def r6(cx):
     cx.floor("C18.R6", "raw writes in proxy.rs", n, 4)
 
 
+def _depends_on_field(body, du, local, field, limit=200):
+    """does the value of `local` depend (through copies, casts, arithmetic, comparisons, call arguments) on a read of `.field`?"""
+    seen = set(); work = [local]
+    while work and len(seen) < limit:
+        l = work.pop()
+        if l in seen: continue
+        seen.add(l)
+        for k, d in du.value_defs(l):
+            places = []
+            if k == "call": places = [a.place for a in d.args if a.place is not None]
+            elif k == "stmt" and d.kind == "assign": places = [o.place for o in d.ops if o.place is not None] + ([d.rplace] if d.rplace is not None else [])
+            for q in places:
+                if field in q.fields(): return True
+                work.append(q.l)
+    return False
+
+
 def r7(cx):
     cands = [b for b in cx.mir.bodies(PKG) if b.promoted is None and b.path.endswith("::read") and "WatchClose" in (b.impl_self or "")]
     if len(cands) != 1: raise AnchorMissing("WatchClose::read: %d candidates" % len(cands))
@@ -364,6 +426,17 @@ def r7(cx):
             if not cfg.dominates(scan.bb, rd[0].bb):
                 why.append("the data descriptor is read on a path that skipped the hang-up/error scan: a descriptor that is readable and hung up is read as a clean end-of-stream instead of ending the session")
             if not cfg.dominates(ew[0].bb, scan.bb): why.append("the scan does not follow epoll_wait")
+            # both descriptors: inside one iteration of the scan, nothing that depends on which descriptor the event belongs to
+            # (its `data` token) stands before the hang-up test
+            du = DefUse(body)
+            fwd = cfg.reach([scan.target], blocked_nodes={scan.bb}) if scan.target is not None else set()
+            region = {b for b in fwd if bp[0] in cfg.reach([b], blocked_nodes={scan.bb})}
+            for b in sorted(region):
+                t = body.blocks[b].term
+                if body.blocks[b].cleanup or t.kind != "switch" or t.discr is None or t.discr.place is None: continue
+                if _depends_on_field(body, du, t.discr.place.l, "data"):
+                    why.append("the hang-up/error test is applied only to events selected by their `data` token (%s): a hang-up of the other descriptor goes unnoticed and the bridge does not stop when that side closes" % t.sp)
+                    break
         # the mask covers RDHUP, HUP and ERR
         ors = [t for t in body.calls("=bitor")]
         if len(ors) < 2: why.append("error mask is not the union of three event kinds")
